@@ -263,6 +263,8 @@ def map_job(ck, prog, natbin, kind, K, segs, quick):
             if cnt % (2 if quick else 5) == 0:
                 nat = native.ask(req)
                 r = nat.get("result", {}) if isinstance(nat, dict) else {}
+                if isinstance(r, dict) and "parse_error" in r:
+                    continue        # the witness text is not valid source (e.g. a reserved word as a key): nothing was compared
                 if (not exp_errors and "ok" in r and len(r["ok"]) == len(exp_map)) or (exp_errors and "err" in r and len(r["err"]) == len(exp_errors)):
                     ck.native_agree += 1
                     if len(ck.samples) < 6:
@@ -290,10 +292,10 @@ def prepare(ck):
     if quick:
         kinds = [("hm_string", 3, 1), ("hm_string", 2, 2), ("bm_string", 3, 1), ("hm_ident", 2, 2), ("bm_ident", 2, 2)]
     else:
-        kinds = [("hm_string", K, 2), ("bm_string", K, 2), ("hm_ident", K, 2), ("bm_ident", K, 2)]
+        kinds = [("hm_string", K, 1), ("hm_string", 3, 2), ("bm_string", 3, 2), ("hm_ident", 3, 2), ("bm_ident", K, 1)]
     if not quick:
         kinds.append(("hm_path", 3, 2))
-    ck.bounds = {"items": "0..%d (ident keys: 0..%d in quick)" % (K, 2 if quick else K), "path_segments": "1..2", "maps": [k[0] for k in kinds],
+    ck.bounds = {"items": "0..%d with one-segment keys, 0..3 with 1..2 segments (ident keys: 0..2 in quick)" % K, "path_segments": "1..2", "maps": [k[0] for k in kinds],
                  "values": "opaque conversion (any Ok/Err)", "keys": "unbounded strings; every repetition pattern is a path"}
     ck.outside = ["more items than the bound (statement: up to 12; the per-item step is uniform in the number of earlier items)",
                   "key paths with generic arguments", "value types other than the opaque conversion (bool/u8/String/Expr/nested map: C11/C13 + parametricity)",
